@@ -194,7 +194,8 @@ func init() {
 					}
 					base.Outs[k].Script = sc
 				case 1:
-					base.Outs[k].Script = prng.Pick(r, [][]byte{{0x00}, {0x6a}, {0x51}, {0x00, 0x6a}, {0x00, 0x00}, {0x4c}, {0x01}, {0x6a, 0x4c}, {0x00, 0x6a, 0x01}})
+					base.Outs[k].Script = prng.Pick(r, [][]byte{{0x00}, {0x6a}, {0x51}, {0x00, 0x6a}, {0x00, 0x00}, {0x4c}, {0x01}, {0x6a, 0x4c}, {0x00, 0x6a, 0x01},
+						{0x4d}, {0x4d, 0x01}, {0x4e}, {0x4e, 0x01}, {0x4e, 0x01, 0x02}, {0x4e, 0x01, 0x02, 0x03}, {0x51, 0x4e, 0x00, 0x00, 0x00}, {0x4c, 0x05, 0x01}, {0x05, 0x01, 0x02}, {}})
 				case 2: // a P2PKH-inscription envelope whose pushes (content type, separator, payload) use every legal form, empty ones included
 					form := func(d []byte) []byte {
 						if len(d) == 0 {
@@ -217,6 +218,9 @@ func init() {
 				if i%97 == 5 && k == 0 { // one script beyond the readers' chunk size
 					base.Outs[k].Script = r.Bytes(prng.Pick(r, []int{16384, 16385, 20000, 40000}))
 				}
+			}
+			if i%11 == 3 { // unlocking scripts that end inside a push header (coinbase-style data)
+				base.Ins[0].Unlock = prng.Pick(r, [][]byte{{0x4e, 0x01, 0x02, 0x03}, {0x03, 0x01, 0x02, 0x4d, 0x01}, {0x4c}, {0x51, 0x4e}})
 			}
 			for k := range base.Ins { // "signed": every unlocking script present and non-empty
 				if len(base.Ins[k].Unlock) == 0 {
@@ -664,6 +668,10 @@ func c16JudgeTx(c *mon.Ctx, in *c16Tx) {
 				c16Viol(c, "C16:script-changed:"+w, func() string {
 					return fmt.Sprintf("%s: output %d script %x came back as %x", w, i, []byte(o.Script), c16ScriptBytes(back.LockingScript))
 				})
+			}
+			if back.LockingScript != nil { // the decoded object is the caller's: it goes on building on it (later decodes must not see that)
+				_ = back.LockingScript.AppendOpcodes(0x6a)
+				_ = back.LockingScript.AppendPushData([]byte("appended by the owner"))
 			}
 			if back.Satoshis != o.Sats && (w == "Output" || o.Sats <= c16MaxMoney) {
 				c16Viol(c, "C16:amount-changed:"+w, func() string {
